@@ -66,6 +66,22 @@ Proof. intros a b c d id body x. exact (unknown_id_is_skipped a b c d id body x 
 Example C06_unknown_84 : run_conn [[0;0;0;1;84; 0;0;0;1;0]] = ([Choke], RPending, []).
 Proof. vm_compute. reflexivity. Qed.
 
+(* The meaning of a well-formed stream from the SENDER's side, independent of the decoder's own decisions: whatever a peer
+   sends as a sequence of items -- messages in their BEP3 layout (C07_layout: encode_msg m is that layout) and frames
+   with ids that are none of the nine -- decodes to exactly its messages, in order, with nothing left buffered; every
+   complete message is delivered whatever follows it.  With C06_segmentation / C06_any_two_cuts_agree this holds
+   however the stream is cut into reads. *)
+Theorem C06_complete_message_delivered : forall m x, WireSpec.FieldsOk m -> conn_parse (encode_msg m ++ x) = PDeliver m x.
+Proof. exact complete_message_delivered. Qed.
+Theorem C06_items_decode : forall l, Forall item_ok l -> Dec (concat (map encode_item l)) (msgs_of_items l) SMore [].
+Proof. exact items_decode. Qed.
+Corollary C06_items_any_cut : forall l cs ms r buf, Forall item_ok l -> concat cs = concat (map encode_item l) ->
+  IncRun cs ms r buf -> ms = msgs_of_items l /\ r = SMore /\ buf = [].
+Proof.
+  intros l cs ms r buf Hl Hc HR. pose proof (C06_segmentation cs ms r buf HR) as D1. rewrite Hc in D1.
+  pose proof (C06_items_decode l Hl) as D2. eapply dec_functional; eassumption.
+Qed.
+
 (* the pinned decoder is refuted: an unknown id whose body has not arrived crashed the connection *)
 Example C06_nonvacuous : parse_frame [0;0;0;5;9;0] = PUnknown 9 9 /\ conn_parse [0;0;0;5;9;0] = PWait
                          /\ run_conn [[0;0;0;5;9;0]; [1;2;3;0;0;0;1;0]] = ([Choke], RPending, []).
@@ -83,3 +99,6 @@ Print Assumptions C06_any_two_cuts_agree.
 Print Assumptions C06_meaning_exists.
 Print Assumptions C06_exec_segmentation.
 Print Assumptions C06_unknown_id_skipped.
+Print Assumptions C06_complete_message_delivered.
+Print Assumptions C06_items_decode.
+Print Assumptions C06_items_any_cut.
